@@ -250,6 +250,7 @@ package xslices
 
 //@ func Index
 //@   props C19
+//@   noalloc
 //@   ensures -1 <= result && result < len(s) && (result >= 0 ==> s[result] == x)
 //@   ensures forall t int {s[t]} :: 0 <= t && t < len(s) && (result == -1 || t < result) ==> s[t] != x
 
